@@ -18,7 +18,7 @@ def one(e):
     shutil.rmtree(d, ignore_errors=True)
     lines = [l for l in p.stdout.splitlines() if l.startswith("VIOLATION") or l.startswith("  ")][:6]
     return e["name"], p.returncode, lines
-with cf.ThreadPoolExecutor(3) as ex:
+with cf.ThreadPoolExecutor(4) as ex:
     for (name, rc, lines), e in zip(ex.map(one, ents), ents):
         want = 1 if e["expect"] == "violation" else 0
         print("%-30s expect=%-9s rc=%s %s" % (name, e["expect"], rc, "OK" if rc == want else "MISMATCH"), flush=True)
